@@ -1,6 +1,6 @@
 """Sidecar contracts for the lattice classes: supported-size families (preconditions) and obligation builders."""
 import z3
-from pyvc.lattice import Lattice, effective, anticommute_count, anti, pauli_conds, Acc
+from pyvc.lattice import Lattice, effective, anticommute_count, anticommute_odd, xor_all, anti, pauli_conds, Acc
 from pyvc.source import Unsupported
 from pyvc.values import T, E, M, Z, B, eq
 from pyvc.solve import check
@@ -60,8 +60,7 @@ def comm_query(lat, pre, arA, arB):
     """assertions whose unsatisfiability proves: any two generators of these arities commute, for every L in the family"""
     a, ma, sa = sym_stab(lat, 'a', arA)
     b, mb, sb = sym_stab(lat, 'b', arB)
-    cnt = anticommute_count(effective(ma), effective(mb))
-    return [pre, lat.S(a), lat.S(b), cnt % 2 != 0], (a, b, ma, mb, sa, sb)
+    return [pre, lat.S(a), lat.S(b), anticommute_odd(effective(ma), effective(mb))], (a, b, ma, mb, sa, sb)
 
 
 def op_value_at(acc, key):
@@ -78,6 +77,16 @@ def logical_vs_stab_count(lat, acc, m_eff):
         lv = op_value_at(acc, k)
         terms.append(z3.If(z3.And(g, anti(v, lv)), 1, 0))
     return z3.Sum(terms) if terms else z3.IntVal(0)
+
+
+def logical_vs_stab_odd(lat, acc, m_eff):
+    """the stabilizer (effective entries) anticommutes with the built logical operator: odd number of anticommuting qubits"""
+    conds = []
+    for g, k, v in m_eff:
+        if len(k.items) not in acc.arities():
+            continue
+        conds.append(z3.And(g, anti(v, op_value_at(acc, k))))
+    return xor_all(conds)
 
 
 def rename(f, old, tag):
